@@ -83,6 +83,7 @@ def run(prop, tier, seed):
         rep.finding(key, c, o, [x], "TraceVM rejects the event: %s %s (run %s, event %d)" % (x["kind"], x["info"][:300], x["run"], x["line"]))
     rep.coverage = {
         "vm_traced_runs": len(runs), "vm_instruction_steps_validated": vmcov.get("steps_checked", 0),
+        "vm_calls_returns_validated": vmcov.get("calls_returns", 0),
         "vm_steps_outside_model": vmcov.get("steps_unmodelled", 0), "vm_steps_value_undecided": vmcov.get("steps_undecided", 0),
         "peephole_rewrites_validated": vmcov.get("rewrites", 0), "peephole_rewrites_undecided": vmcov.get("rewrites_undecided", 0),
         "peephole_rewrites_outside_model": vmcov.get("rewrites_unmodelled", 0),
